@@ -111,6 +111,12 @@ check("C17", "exploration",
   "Go map-typed values and encryption excluded by the statement. One row type; histories longer than D and the GOEXPERIMENT=simd build are not covered.",
   "DESIGN.md §2 C17")
 
+check("C18", "fault_enumeration",
+  "exhaustive fault enumeration over the encrypted modules of small real files (every byte flipped, every equal-length module pair transplanted, modules from twin files, truncations, signature stripped/zeroed) plus enumeration of key assignments and seek histories; module boundaries located by walking the length prefixes",
+  "12 configurations (encrypted footer / signed plaintext footer x footer key only / per-column key x {v2 small pages, v1+snappy+AAD prefix, bloom filters+2 row groups}). (a) round trip with the right keys incl. seek histories (read 0/1/5/20 rows, SeekToRow(every 7th row), read) on a 150-row many-page file; (b) the raw bytes contain no value token nor token prefix (values, dictionaries, statistics, indexes); (c) wrong or missing footer / column keys are rejected; (d) every byte of every module, of the encrypted footer module and of the plaintext footer + signature is flipped, every ordered pair of equal-length modules is transplanted, every module is replaced by its twin from a file with another identifier and from a file written with the same EncryptionConfig object, every module is truncated by 1 byte and by half, the footer signature is stripped and zeroed: the file must never open and read fully without error, and rows returned before an error must be a prefix of the original.",
+  "Nonces are random (no oracle depends on ciphertext bytes); the plaintext FileCryptoMetaData of encrypted-footer files is not an encrypted module: changes there are only required not to alter rows; AES_GCM_CTR_V1 is not implemented by the library.",
+  "DESIGN.md §2 C18")
+
 NOT_YET = "check not built yet in this round (design in DESIGN.md §2); not claimed until its check exists"
 
 m = {
